@@ -29,11 +29,27 @@ FLAGS = {
     "stress-minor": ("--gc-stress-minor --gc-worker=1 --max-heap-size=32M", "stress"),
     "worker2": ("--gc-worker=2", None),
     "notlab": ("--disable-tlab --max-heap-size=64M", "small"),
-    "smallheap": ("--max-heap-size=24M --gc-young-size=1M --gc-worker=2", None),
+    "smallheap": ("--max-heap-size=32M --gc-young-size=1M --gc-worker=2", None),     # young size grows with the thread count, see _flags
 }
 AFFINITY = ("one", "two", "all")
 HOOKS = ("WAITLIST_ENQUEUE", "WAITLIST_WAKEUP", "WAITLIST_WAKEUP_EMPTY", "WAITLIST_WAKEUP_ALL", "BLOCK_CALLS", "JOIN_CALLS", "JOIN_WAITED", "PARK_SLOW",
          "UNPARK_SLOW_WAITS", "SAFEPOINT_SLOW", "GC_PERFORMED", "WAITLIST_CHECKS", "THREADS_SPAWNED", "STW_OPS_MULTI", "DEADLOCK_SCANS")
+
+
+def _flags(level, case):
+    """DORA_FLAGS of a level for a case. The small-heap level gives the swiper collector a 1M young generation only for up to three
+    program threads: with more allocating threads than that, a thread that loses the race for the memory freed by a collection four
+    times in a row (every thread needs a 32K TLAB, collections requested concurrently are coalesced) ends in a spurious
+    `out of memory` trap although the live set is a few kilobytes -- a defect of the unchanged tree that is not a C09 matter
+    (proposed_fixes/c09-alloc-after-gc-race.*); such traps are reported under the one key c09:prog:trap-OOM:<gc>."""
+    if level != "smallheap":
+        return FLAGS[level][0]
+    t = 1 + max(threadgen.threads_of(s, p) for s, p in case.invocations)
+    if t <= 4:
+        return FLAGS[level][0]
+    if t <= 7:
+        return "--max-heap-size=64M --gc-young-size=4M --gc-worker=2"
+    return "--max-heap-size=128M --gc-young-size=16M --gc-worker=2"
 
 
 def _affinity(level, r, cpus):
@@ -123,7 +139,7 @@ def run(ctx):
                     permille = perturb[(rep + j + inst) % len(perturb)]
                     rj = ctx.rng("run", (inst * 64 + j) * 8 + rep)
                     jobs.append({"order": (rep, j, inst), "prog": "tp%d" % pi, "scenario": name, "case": cases[size], "size": size, "be": be, "gc": gc,
-                                 "fl": fl, "af": af, "aff": _affinity(af, rj, cpus), "perturb": "%d:%d" % (rj.randrange(1, 1 << 20), permille) if permille else None,
+                                 "fl": fl, "flags": _flags(fl, cases[size]), "af": af, "aff": _affinity(af, rj, cpus), "perturb": "%d:%d" % (rj.randrange(1, 1 << 20), permille) if permille else None,
                                  "permille": permille, "id": len(jobs)})
             inst += 1
     jobs.sort(key=lambda j: j["order"])
@@ -138,7 +154,7 @@ def run(ctx):
         if time.time() > deadline:
             return j, "skipped", None
         sf = os.path.join(statd, "%d.json" % j["id"])
-        env = {"DORA_FLAGS": FLAGS[j["fl"]][0], "DORA_VERIF_DEADLOCK": "5000", "DORA_VERIF_STATS": sf}
+        env = {"DORA_FLAGS": j["flags"], "DORA_VERIF_DEADLOCK": "5000", "DORA_VERIF_STATS": sf}
         if j["perturb"]:
             env["DORA_VERIF_PERTURB"] = j["perturb"]
         # runs started shortly before the time budget ends get a shorter watchdog, so that stragglers cannot double the wall time
@@ -167,7 +183,7 @@ def run(ctx):
             ctx.count("prog_skipped_time_budget")
             continue
         c = j["case"]
-        cfg = "%s --gc %s DORA_FLAGS='%s' affinity=%s perturb=%s" % (j["be"], j["gc"], FLAGS[j["fl"]][0], sorted(j["aff"]) if j["aff"] else "all", j["perturb"])
+        cfg = "%s --gc %s DORA_FLAGS='%s' affinity=%s perturb=%s" % (j["be"], j["gc"], j["flags"], sorted(j["aff"]) if j["aff"] else "all", j["perturb"])
         ctx.count("prog_runs")
         if o.cls == "timeout":
             ctx.inconc("program level: run watchdog (%.0fs, no deadlock verdict): %s under %s" % (o.wall, c.describe(), cfg))
@@ -196,7 +212,7 @@ def run(ctx):
         err = o.stderr.decode("utf-8", "replace")
         files = {"program.dora": src_of[j["prog"]], "stderr.txt": err[-6000:], "expected_stdout.txt": exp, "stdout.txt": got[-6000:],
                  "cmd.txt": "# %s (%s)\nDORA_FLAGS='%s' DORA_VERIF_DEADLOCK=5000%s %s<exe: dora compile %s--gc %s program.dora> %s\n" % (
-                     c.describe(), threadgen.Knobs.describe(knobs[int(j["prog"][2:])]), FLAGS[j["fl"]][0],
+                     c.describe(), threadgen.Knobs.describe(knobs[int(j["prog"][2:])]), j["flags"],
                      " DORA_VERIF_PERTURB=" + j["perturb"] if j["perturb"] else "", "taskset -c %s " % ",".join(map(str, sorted(j["aff"]))) if j["aff"] else "",
                      "--cannon " if j["be"] == "cannon" else "", j["gc"], " ".join(str(a) for a in c.argv()))}
         # the scenario a failure belongs to = the invocation that was running or printed the first wrong line (one line each)
@@ -216,6 +232,10 @@ def run(ctx):
             line = next((l for l in err.splitlines() if "VERIF-MONITOR" in l), "")
             ctx.violation("c09:prog:%s:monitor-%s" % (scen, execu.MONITOR_EXITS.get(o.status, o.status)),
                           "%s under %s: %s\n(exit %d is a logical verdict of the runtime monitor, not a timeout)\nstdout so far: %r" % (c.describe(), cfg, line, o.status, got[-300:]),
+                          files=files)
+        elif o.cls == "trap" and execu.TRAPS.get(o.status) == "OOM":
+            # not a synchronisation verdict and independent of the scenario: one key per collector
+            ctx.violation("c09:prog:trap-OOM:%s" % j["gc"], "%s under %s ended in `out of memory` although its live set is small\nstderr: %s" % (c.describe(), cfg, err[-900:]),
                           files=files)
         elif o.cls == "trap":
             ln, text = _assert_site(err, j["prog"] + ".dora", src_lines[j["prog"]])
